@@ -46,14 +46,17 @@ theorem signal_grants_if_satisfiable {fuel : Nat} {w : World} {g : Nat} {gd : Gu
   exact ⟨h1, h2, h3⟩
 
 /-- … otherwise (empty list, or the front waiter's demand does not hold) the guard's own part changes neither the queue
-    nor the event set: the signal is just the signal of the observers -/
+    nor the event set: the signal is just the forwarded signal to the observers (`fwdSignal`: the condition signal for the
+    guard of a condition, a plain guard signal for any other observer — Props/C13) -/
 theorem signal_without_grant {fuel : Nat} {w : World} {g : Nat} {gd : Guard} (hg : w.guards[g]? = some gd)
     (hwf : WF guard_queue_check gd.q) (h : gd.q.count = 0 ∨ evalDemand w (demandOf gd (gd.q.tag 1).key) = false) :
-    guardSignal (fuel + 1) w g = gd.observers.foldl (fun w o => guardSignal fuel w o) w :=
+    guardSignal (fuel + 1) w g = gd.observers.foldl (fun w o => fwdSignal fuel w o) w :=
   guardSignal_no_grant hg hwf h
 
 /-- whatever a signal does (observers included): it only dequeues waiters whose demand holds and schedules their
-    wake-ups; it never touches processes, objects, the clock, nor removes an event -/
+    wake-ups — a grant (aRes, SUCCESS) from a front step, a condition wake-up (aCond, SUCCESS) from the condition signal of
+    an observing condition (`SigRel.pending`: every new event is `IsGrantEv` or `IsCondEv`) —; it never touches processes,
+    objects, the clock, nor removes an event -/
 theorem signal_footprint (fuel : Nat) (w : World) (g : Nat) (hall : AllGWF w) : SigRel w (guardSignal fuel w g) :=
   guardSignal_rel fuel w g hall
 
